@@ -7,8 +7,8 @@ needs = " ".join(sys.argv[5:])
 out = subprocess.run(["timeout", "3000", "/verif/tools/try_seed.sh", src] + checks.split(","), capture_output=True, text=True).stdout
 ok = ("demo on clean tree: exit=0" in out and "demo with change:   exit=1" in out and out.count("3 failed, 160 passed") == 2
       and "DOES NOT APPLY" not in out)
-caught = re.findall(r"check (C\d+) seed=0: exit=1", out)
-broken = re.findall(r"check (C\d+) seed=0: exit=2", out)
+caught = re.findall(r"check (C\d+) seed=0: exit=1\b", out)
+broken = re.findall(r"check (C\d+) seed=0: exit=(?:2|\d\d+)\b", out)
 print(sid, "confirmed" if ok else "NOT CONFIRMED", "caught by", caught, "harness-errors", broken)
 if not ok:
     print(out)
